@@ -1,13 +1,58 @@
 """Fresh-interpreter scenario runner:  python -m mon.scenario <spec.json>   -> JSON on stdout
 
 spec = {"pickle": path | null, "cfg": cfg | null, "ops": [...],
-        "others": [{"cfg":..., "ops":[...]}, ...] | null, "interleave": bool}
+        "others": [{"cfg":..., "ops":[...], "reuse_policy_objects": bool}, ...] | null}
 Restores a pickled bandit (or builds one from cfg), optionally constructs / trains / queries *other* bandits
-between every two steps (C04 isolation), runs the literal ops and prints the canonical outputs."""
+between every two steps (C04 isolation) - with `reuse_policy_objects` they are built from the very same
+LearningPolicy / NeighborhoodPolicy tuple objects as the scenario bandit - runs the literal ops and prints the
+canonical outputs."""
 from mon import env
 import json
 import pickle
 import sys
+
+
+def make_policy_objects(cfg):
+    from mabwiser.mab import NeighborhoodPolicy as NP
+    from mon import gen
+    lp = gen.make_lp(cfg["lp"])
+    if cfg["np"]["kind"] == "tree" and cfg["np"].get("default"):
+        np_ = NP.TreeBandit()  # the NamedTuple's shared default dict
+    else:
+        np_ = gen.make_np(cfg["np"])
+    return lp, np_
+
+
+def build_with(cfg, lp, np_):
+    from mabwiser.mab import MAB
+    return MAB(list(cfg["arms"]), lp, np_, seed=cfg["seed"], n_jobs=cfg.get("n_jobs", 1), backend=cfg.get("backend"))
+
+
+def run_interleaved(cfg, ops, others, on_other_call=None, restored=None):
+    """the scenario bandit is built first; every other bandit is built lazily and advanced by up to two of its own
+    ops between two steps of the scenario.  on_other_call(description) is invoked after every call on another bandit."""
+    from mon import gen
+    lp, np_ = make_policy_objects(cfg) if cfg else (None, None)
+    m = restored if restored is not None else build_with(cfg, lp, np_)
+    live, cursor, out = {}, [0] * len(others), []
+    for step, op in enumerate(ops):
+        for j, o in enumerate(others):
+            if j not in live:
+                if o.get("reuse_policy_objects") and cfg and o["cfg"]["lp"]["kind"] == cfg["lp"]["kind"] and \
+                        o["cfg"]["np"]["kind"] == cfg["np"]["kind"]:
+                    live[j] = build_with(o["cfg"], lp, np_)
+                else:
+                    live[j] = build_with(o["cfg"], *make_policy_objects(o["cfg"]))
+                if on_other_call:
+                    on_other_call("construct other #%d %s" % (j, gen.cfg_sig(o["cfg"])))
+            for _ in range(2):
+                if cursor[j] < len(o["ops"]):
+                    gen.run_ops(live[j], [o["ops"][cursor[j]]])
+                    if on_other_call:
+                        on_other_call("other #%d %s: %s" % (j, gen.cfg_sig(o["cfg"]), gen.short(o["ops"][cursor[j]])))
+                    cursor[j] += 1
+        out += gen.run_ops(m, [op])
+    return m, out
 
 
 def main(path):
@@ -15,26 +60,12 @@ def main(path):
     from mon import gen
     with open(path) as f:
         spec = json.load(f)
+    restored = None
     if spec.get("pickle"):
         with open(spec["pickle"], "rb") as f:
-            m = pickle.load(f)
-    else:
-        m = gen.build(spec["cfg"])
-    others = spec.get("others") or []
-    live = []
-    cursor = [0] * len(others)
-    out = []
-    for step, op in enumerate(spec["ops"]):
-        # interleave: advance every other bandit by one or two of its own ops between two steps of the scenario
-        for j, o in enumerate(others):
-            if step == 0:
-                live.append(gen.build(o["cfg"]))
-            for _ in range(2):
-                if cursor[j] < len(o["ops"]):
-                    gen.run_ops(live[j], [o["ops"][cursor[j]]])
-                    cursor[j] += 1
-        out += gen.run_ops(m, [op])
-    json.dump({"out": out, "hashseed": sys.flags.hash_randomization, "arms": gen.canon(list(m.arms))}, sys.stdout)
+            restored = pickle.load(f)
+    m, out = run_interleaved(spec.get("cfg"), spec["ops"], spec.get("others") or [], restored=restored)
+    json.dump({"out": out, "hash_randomization": sys.flags.hash_randomization, "arms": gen.canon(list(m.arms))}, sys.stdout)
 
 
 if __name__ == "__main__":
